@@ -78,10 +78,14 @@ class LaTeXRenderer(BaseRenderer):
         return self.render_inner(token)
 
     def render_raw_text(self, token, escape=True):
-        return (token.content.replace('$', '\\$').replace('#', '\\#')
+        # the backslash goes first (without its trailing braces, which would be
+        # escaped again by the following replacements) and is completed last
+        return (token.content.replace('\\', '\\textbackslash')
+                             .replace('$', '\\$').replace('#', '\\#')
                              .replace('{', '\\{').replace('}', '\\}')
                              .replace('&', '\\&').replace('_', '\\_')
                              .replace('%', '\\%').replace('^', '\\^{}')
+                             .replace('\\textbackslash', '\\textbackslash{}')
                ) if escape else token.content
 
     def render_heading(self, token):
